@@ -628,8 +628,19 @@ fn first_unfilled(a: &Analysis<'_>, only_while_retry_waits: bool) -> Option<Unfi
         let started_names: BTreeSet<&str> = upto.iter().filter(|e| matches!(e.k, K::ScStarted)).filter_map(|e| e.scenario.as_deref()).collect();
         let mut ready = 0usize;
         let mut serial_ready = false;
-        for sc in a.st.scenarios.values() {
-            let Some(d) = delivered_at.get(&sc.feature_idx) else { continue };
+        // (per delivered feature, by its own scenario list: a feature handed over twice shares its scenarios' names
+        // with its twin, and the two copies arrive at different times)
+        let per_feature = delivered_at.iter().flat_map(|(fi, d)| a.st.feature_scenarios.get(fi).into_iter().flatten().map(move |n| (n, d)));
+        for (name, d) in per_feature {
+            let Some(sc) = a.st.scenarios.get(name) else { continue };
+            if a.twin_names.contains(name) {
+                // which copy has started cannot be told by name: a serial one that was handed over may be waiting,
+                // a concurrent one is never counted as ready
+                if sc.serial && *d <= q.clock {
+                    serial_ready = true;
+                }
+                continue;
+            }
             if started_names.contains(sc.name.as_str()) {
                 continue;
             }
